@@ -1628,9 +1628,17 @@ def obl_warm(check, conv_table, thorough=False, budget_s=None):
                                        "warm_context_gives_the_same_preselection": warm_search})
 
 
-def obl_learn(check, conv_table, thorough=False, budget_s=None):
+def obl_learn(check, conv_table, thorough=False, budget_s=None, quoted_only=False):
     kw = dict(mode="learn", dict_max=1, dist_mode="fixed", emoji_names=True, emoji_count=1, emoticons=False, autocorrect=False, user_autocorrect=False,
               selections=True, suffixes=False, fixed={"ansi": False}, distinct=True)
+    if quoted_only:
+        # C17: the preselection is the same with smart quotes on and off also after a choice was learned for a quoted word - what is stored
+        # must not depend on the curling (smart quotes symbolic, English off)
+        shapes = base_shapes([("\"", "\""), ("'", ""), ("\"'", "'\"")], [1, 2] if thorough else [1], conv_table, **dict(kw, emoji_names=False, fixed={"ansi": False, "include_english": False}))
+        check.bounds["learn_roundtrip_quoted"] = dict(word="1%s symbolic letters/digits in quotes" % ("-2" if thorough else ""), wrappers=[s["pre"] + "W" + s["trail"] for s in shapes],
+                                                      commit="any index other than the preselected one", options="smart quotes symbolic")
+        run_suggest_obligation(check, "learn_roundtrip_quoted", shapes, ["cover:learn"], confirmers={"learned_choice_is_preselected_next_time": learn_search}, budget_s=budget_s)
+        return
     shapes = base_shapes(WRAPPERS_QUICK, [1, 2] if thorough else [1], conv_table, **kw)
     shapes += base_shapes([("", "")], [3], conv_table, **dict(kw, suffixes=True, emoji_names=False, fixed={"ansi": False, "include_english": False, "smart_quote": False}))
     shapes += special_term_shapes([t for t in SPECIAL_TERMS if any(ch.isalnum() for ch in t)], **dict(kw, fixed={"ansi": False, "include_english": False}))
@@ -1692,12 +1700,12 @@ def make_only_phonetic(shape):
                 cond = z3.And([is_meta[k] for k in range(0, i)] + [z3.Not(is_meta[k]) for k in range(i, j)] + [is_meta[k] for k in range(j, n)])
                 parts = (s[:i], s[i:j], s[j:]) if i != j else (s, [], [])
                 cs = [cv(p) for p in parts]
+                if 0 < i < j < n:
+                    clauses.append(("cover:wrapped", cond))
                 if any(x is None for x in cs):
                     terms.append(z3.Not(cond))     # this split was not the one converted on this path
                 else:
                     terms.append(z3.Implies(cond, seq_eq(r, list(cs[0]) + list(cs[1]) + list(cs[2]))))
-                    if 0 < i < j < n:
-                        clauses.append(("cover:wrapped", cond))
         clauses.append(("three_conversions_concatenated", z3.And(terms)))
         return eval_clauses(st, clauses, lambda cn, m: dict(kind="violation", clause=cn, inputs=inputs(m), predicted=pred(m)))
     return build, on_path
@@ -1761,6 +1769,9 @@ def obl_only_phonetic(check, max_n, budget_s=None):
     # confirm natively: the law must fail with the real converter too
     keys = char_keys()
     texts = sorted(set(v["inputs"]["term"] for v in vio))[:40] + ["{kotha}", ",ah,,", "\"ami\"", "(k)", "a.", ".a"]
+    # punctuation whose conversion depends on what stands next to it, directly before / after words that start with a digit or a letter
+    texts += [p + w + t for p in (".", "..", "(.", ",", "'", "-", "(", "~.", "...") for w in ("5", "a", "75", "k1") for t in ("", ".", ",", ".5"[:1])]
+    texts = list(dict.fromkeys(texts))
     cfg = {"layout": "avro_phonetic", "opts": {"phonetic_suggestion": False}}
     scs = [{"steps": [{"op": "new", "config": cfg}] + [{"op": "key", "key": keys[ch], "sel": 0} for ch in t] + [{"op": "split", "text": t, "colon": False}]} for t in texts if all(ch in keys for ch in t)]
     res = run_replay(scs)
